@@ -374,3 +374,42 @@ def scramble_generators(rng, t, steps=None):
                 arr[[i, j]] = arr[[j, i]]
             t.K[[i, j]] = t.K[[j, i]]
     return t
+
+
+def combine(t, coeffs):
+    """product of the rows of t selected by the 0/1 vector coeffs (in row order); returns (x, z, k)"""
+    n = t.n
+    acc = PTab(np.vstack([t.X, np.zeros((1, n), dtype=np.uint8)]), np.vstack([t.Z, np.zeros((1, n), dtype=np.uint8)]),
+               np.hstack([t.K, [0]]))
+    last = t.m
+    for i in np.nonzero(np.asarray(coeffs))[0]:
+        # acc_last <- acc_last * row_i  (order: previous product on the left)
+        acc.K[last] = (acc.K[last] + acc.K[i] + 2 * int((acc.Z[last] & acc.X[i]).sum())) % 4
+        acc.X[last] ^= acc.X[i]
+        acc.Z[last] ^= acc.Z[i]
+    return acc.X[last].copy(), acc.Z[last].copy(), int(acc.K[last])
+
+
+def overlap_sq(t1, t2):
+    """|<a|b>|^2 of two pure stabilizer states given by full generating sets:
+    0 if some Pauli occurs in both groups with opposite signs, else 2^-(n - dim(S_a cap S_b))"""
+    n = t1.n
+    A = np.hstack([t1.X, t1.Z])
+    B = np.hstack([t2.X, t2.Z])
+    # (ca, cb) with ca A + cb B = 0
+    M = np.vstack([A, B]).T
+    ns = gf2.nullspace(M)
+    dim = 0
+    rows = []
+    for v in ns:
+        ca, cb = v[:t1.m], v[t1.m:]
+        if not ca.any():
+            continue
+        xa, za, ka = combine(t1, ca)
+        xb, zb, kb = combine(t2, cb)
+        assert np.array_equal(xa, xb) and np.array_equal(za, zb)
+        if (ka - kb) % 4 != 0:
+            return 0.0
+        rows.append(np.hstack([xa, za]))
+    dim = gf2.rank(np.array(rows)) if rows else 0
+    return 2.0 ** (-(n - dim))
